@@ -122,6 +122,16 @@ func (e *VerifC21Env) SetCluster(ids []string, replicaN int, self, coordinator s
 // NodeIDs returns the ids of c.nodes in slice order.
 func (e *VerifC21Env) NodeIDs() []string { return Nodes(e.c.nodes).IDs() }
 
+// ShardNodes calls cluster.shardNodes on the current cluster.
+func (e *VerifC21Env) ShardNodes(index string, shard uint64) []string {
+	return Nodes(e.c.shardNodes(index, shard)).IDs()
+}
+
+// AvailableShards calls Index.AvailableShards for the named index.
+func (e *VerifC21Env) AvailableShards(index string) []uint64 {
+	return e.h.Index(index).AvailableShards().Slice()
+}
+
 // Diff calls cluster.diff against a cluster built from toIDs (same replica count).
 func (e *VerifC21Env) Diff(toIDs []string) (string, string, error) {
 	return e.c.diff(verifC21Cluster(toIDs, e.c.ReplicaN))
